@@ -39,7 +39,8 @@ struct Case
   int nest = 0;      // 0 none, 1 inner parallel_for, 2 inner blocks loop
   int inner = 0;     // inner loop size 0..64
   int recheck = 0;   // re-read the counters after a short delay
-  auto tie() { return std::tie(api, type, n, block, threads, cost, nest, inner, recheck); }
+  int nmode = 0;     // 1: n is taken relative to the scheduler's partition count T*(T-1)
+  auto tie() { return std::tie(api, type, n, block, threads, cost, nest, inner, recheck, nmode); }
 };
 static const int BLOCKS[] = {1, 2, 3, 7, 16, 64};
 
@@ -168,12 +169,24 @@ static long long clampCount(long long n)
 
 static int g_threads = 0;  // last value given to initTaskingSystem (0: never called)
 
+static void run_case_impl(const Case &c, pbt::Ctx &ctx);
 static void run_case(const Case &c, pbt::Ctx &ctx)
 {
-  if (c.threads > 0) {
-    initTaskingSystem(c.threads);
-    g_threads = c.threads;
+  // every case configures the tasking system itself (a replayed case must not depend on earlier cases)
+  g_threads = c.threads > 0 ? c.threads : 2;
+  initTaskingSystem(g_threads);
+  Case cc = c;
+  if (c.nmode == 1 && c.n >= 0) {
+    // counts around small multiples of the number of partitions the schedulers cut a range into
+    long long parts = std::max(1, g_threads * (g_threads - 1));
+    cc.n = parts * (c.n % 8 + 1) + ((c.n / 8) % 5 - 2);
+  } else if (c.nmode == 2 && c.n >= 0) {
+    cc.n = (long long)g_threads * (c.n % 6 + 1) + ((c.n / 8) % 3 - 1);
   }
+  return run_case_impl(cc, ctx);
+}
+static void run_case_impl(const Case &c, pbt::Ctx &ctx)
+{
   const int api = ((c.api % 4) + 4) % 4;
   const int nest = ((c.nest % 3) + 3) % 3;
   const long long m = nest ? c.inner % 65 : 0;
@@ -336,9 +349,10 @@ static rc::Gen<Case> genCase()
       {3, pbt::range<long long>(0, 65536)}, {1, pbt::range<long long>(65536, 1 << 20)}});
   return gen::build<Case>(gen::set(&Case::api, gen::weightedElement<int>({{4, 0}, {1, 1}, {1, 2}, {3, 3}})), gen::set(&Case::type, pbt::range<int>(0, 7)),
       gen::set(&Case::n, count), gen::set(&Case::block, pbt::range<int>(0, 5)),
-      gen::set(&Case::threads, gen::weightedOneOf<int>({{2, gen::just(0)}, {3, pbt::range<int>(1, 8)}, {1, pbt::range<int>(9, 32)}})),
+      gen::set(&Case::threads, gen::weightedOneOf<int>({{1, gen::just(1)}, {4, pbt::range<int>(2, 8)}, {1, pbt::range<int>(9, 32)}})),
       gen::set(&Case::cost, gen::weightedElement<int>({{3, 0}, {1, 1}, {1, 2}, {1, 3}})), gen::set(&Case::nest, gen::weightedElement<int>({{4, 0}, {1, 1}, {1, 2}})),
-      gen::set(&Case::inner, pbt::range<int>(0, 64)), gen::set(&Case::recheck, pbt::range<int>(0, 3)));
+      gen::set(&Case::inner, pbt::range<int>(0, 64)), gen::set(&Case::recheck, pbt::range<int>(0, 3)),
+      gen::set(&Case::nmode, gen::weightedElement<int>({{3, 0}, {2, 1}, {1, 2}})));
 }
 
 static void register_properties()
